@@ -39,6 +39,7 @@ def run(ctx):
     ctx.rule("C06.5", "get_better_ns_names: contributes only for ancestors of the question; match name assigned only on strictly-greater label count")
     ctx.rule("C06.6", "delegation branch: NS only from answers/authority, A/AAAA only from answers/additional and only for selected NS hosts")
     ctx.rule("C06.7", "recursive.rs caches only fields of NameserverResponse, which only validate_nameserver_response constructs; the raw reply is consumed only by the validator")
+    ctx.rule("C06.9", "a glue record taken from a referral as the answer has the asked type: get_record(.., T) in resolve_with_nameserver_response only behind question.qtype == Record(T), looked up under the question's own name")
     ctx.rule("C06.8", "records of unknown type/class are skipped before any admission in the answer branch")
     ctx.decline("what an arbitrary adversarial reply makes the resolver do beyond these gates")
 
@@ -136,6 +137,34 @@ def run(ctx):
     ctx.check(table == expect, "C06.6", "validate:section-table", "per-section admitted types = %s" % sorted(expect),
               "per-section admitted record types are %s, expected %s" % (sorted(table), sorted(expect)), v.loc())
 
+    # ---------------------------------------------------------------- C06.9
+    rw = prog.body_of(REC + "resolve_with_nameserver_response")
+    rwr = A.Resolver(rw)
+    rwc = A.Conds(rw, rwr)
+    n9 = 0
+    for b, t in A.call_blocks(rw, A.name_is(REC + "get_record")):
+        e = rwr.call_expr(t, b)
+        ty = A.peel(e[2][2])
+        n9 += 1
+        tname = ty[2] if ty[0] == "agg" else None
+        def asked(fc, tname=tname):
+            if fc[0] != "cmp" or fc[1] != "Eq" or tname is None:
+                return False
+            for x, y in ((fc[2], fc[3]), (fc[3], fc[2])):
+                py = A.peel(y)
+                if A.path_str(x) == "^question.qtype" and py[0] == "agg" and py[2] == "Record" and A.peel(dict(py[3])["0"])[0] == "agg" \
+                        and A.peel(dict(py[3])["0"])[2] == tname:
+                    return True
+            return False
+        okq, _ = rwc.guarded(b, asked)
+        # (written as `match question.qtype { Record(A) => .. }` the same fact arrives as variant tests)
+        if not okq and tname is not None:
+            okq = rwc.guarded(b, lambda fc: fc[0] == "is" and fc[1] == tname and A.path_str(fc[2]) == "^question.qtype.<Record>.0")[0] \
+                and rwc.guarded(b, lambda fc: fc[0] == "is" and fc[1] == "Record" and A.path_str(fc[2]) == "^question.qtype")[0]
+        ctx.check(okq and A.path_str(e[2][1]) == "^question.name", "C06.9", "glue-answer:%s" % (tname or "?"), "get_record(rrs, question.name, T) only where question.qtype == Record(T)",
+                  "a %s glue record can be returned as the answer to a question of another type / name (looked up under %s)" % (tname, A.show(e[2][1])[:60]), rw.loc(b))
+    ctx.floor("C06.9", "glue look-ups in resolve_with_nameserver_response", n9, 1)
+
     # ---------------------------------------------------------------- C06.4
     fc_ = prog.fn(REC + "follow_cnames")
     fr = A.Resolver(fc_)
@@ -149,7 +178,7 @@ def run(ctx):
         # payload is a tuple (final_name, map)
         op = st["rv"]["ops"][0]
         pl = A.op_place(op)
-        sd = fc_.single_def(pl["l"]) if pl else None
+        sd = fc_.single_stmt_def(pl["l"]) if pl else None
         if sd and sd[2] == "assign":
             rv = fc_.blocks[sd[0]]["stmts"][sd[1]]["rv"]
             if rv["k"] == "agg" and rv["ak"] == "tuple" and len(rv["ops"]) == 2:
@@ -356,7 +385,7 @@ def _root_local(fn, place):
         if l in seen:
             return l
         seen.add(l)
-        sd = fn.single_def(l)
+        sd = fn.single_stmt_def(l)
         if fn.is_param(l) or sd is None or sd[2] != "assign":
             return l
         rv = fn.blocks[sd[0]]["stmts"][sd[1]]["rv"]
